@@ -79,7 +79,8 @@ CFG = {
                   "offending continuation byte (error_kind_and_offset_partial, error_offset_validPrefixLen, "
                   "validPrefixLen_spec), line/column = LF line/column of that offset through the 8-byte newline kernel "
                   "(error_linecol, line_and_column_eq); encode/decode round trips for every scalar value (decode_encode, "
-                  "encode_decode, encode_none_iff_not_scalar). The property's 'offset = longest valid prefix' holds for five "
+                  "encode_decode, encode_none_iff_not_scalar), also as statements about the spec codec of Spec/Utf8 via the model-to-spec "
+                  "links encode_eq_spec / decode_eq_spec (spec_decode_encode, spec_encode_decode). The property's 'offset = longest valid prefix' holds for five "
                   "kinds (error_offset_partial) and is refuted for InvalidContinuationByte (error_offset_refuted, finding F6, "
                   "[C3 28]).",
     "level_note": "Trusts Lean kernel + bv_decide certificate checker (word/lane lemmas in Proof/Utf8*.lean), the rs2lean "
@@ -95,9 +96,10 @@ CFG = {
                    "SuccinctlyVerif/Proof/Utf8Avx2.lean", "SuccinctlyVerif/Proof/Utf8Codec.lean",
                    "SuccinctlyVerif/Proof/Utf8Broadword.lean", "SuccinctlyVerif/Proof/Utf8BroadwordMain.lean",
                    "SuccinctlyVerif/Proof/Utf8Prefix.lean", "SuccinctlyVerif/Proof/Utf8LineCol.lean",
-                   "SuccinctlyVerif/Proof/Utf8RoundTrip.lean",
+                   "SuccinctlyVerif/Proof/Utf8RoundTrip.lean", "SuccinctlyVerif/Proof/Utf8SpecLink.lean",
                    "SuccinctlyVerif/Model/Utf8.lean", "SuccinctlyVerif/Spec/Utf8.lean"],
     "required_theorems": ["SV.Props.C13.scalar_ok_iff", "SV.Props.C13.avx2_accept_iff", "SV.Props.C13.simd_engine_agrees", "SV.Props.C13.broadword_accept_iff", "SV.Props.C13.engines_agree", "SV.Props.C13.validPrefixLen_spec", "SV.Props.C13.error_linecol", "SV.Props.C13.decode_encode", "SV.Props.C13.encode_decode",
+                          "SV.Props.C13.encode_eq_spec", "SV.Props.C13.decode_eq_spec", "SV.Props.C13.spec_decode_encode",
                           "SV.Props.C13.error_kind_and_offset_partial", "SV.Props.C13.error_offset_refuted"],
     "generated": ["C13:"],
     "allow_bv_decide": True,
